@@ -1,20 +1,45 @@
 (* C06 - Message framing on a stream is independent of how the transport fragments bytes.
-   Statements only.  (Grows with CodecRT.v.) *)
+   Statements only. *)
 From Coq Require Import String.
 From Coq Require Import List NArith ZArith.
-Require Import Bytes Schema Codec CodecProofs CodecRT.
+Require Import Bytes Schema Codec CodecProofs CodecRT SchemaCheck Instance InstanceProofs.
 Import ListNotations.
 Open Scope N_scope.
 
-(* a successfully decoded item took at least its type and length bytes: the stream position only moves forward *)
+(* several messages written back to back on one stream: successive Decode calls on ONE decoder state
+   return them one by one, in order, (normalised,) and then report io.EOF exactly at the clean end -
+   for any number of messages of any size *)
+Theorem C06_stream : forall T, env_ok T -> forall ty tag fl, T ty = Some (tag, fl) -> tag_ok tag ->
+  forall ms bs fuel,
+    Forall2 (fun vs b => wf T (SStruct ty fl) VNil (VStruct ty vs) /\ enc_top T (VStruct ty vs) = Some b) ms bs ->
+    (length ms < fuel)%nat ->
+    dec_stream fuel ty tag fl {| rest := concat bs; last := 0 |}
+    = (map (fun vs => VStruct ty (normalize_fields T fl vs)) ms, SEOF).
+Proof. exact stream_roundtrip. Qed.
+Print Assumptions C06_stream.
+
+(* each successful Decode consumes exactly its own message - 8 bytes plus the declared length - and
+   leaves the decoder without look-ahead, whatever follows: the stream stays in sync *)
+Theorem C06_exact_consumption : forall T, env_ok T ->
+  forall ty tag fl vs b tl,
+    T ty = Some (tag, fl) -> tag_ok tag -> wf T (SStruct ty fl) VNil (VStruct ty vs) ->
+    enc_top T (VStruct ty vs) = Some b ->
+    dec_top ty tag fl {| rest := (b ++ tl)%list; last := 0 |}
+    = Ok (VStruct ty (normalize_fields T fl vs), blen b, {| rest := tl; last := 0 |}).
+Proof. exact roundtrip_top. Qed.
+Print Assumptions C06_exact_consumption.
+
+Theorem C06_message_length : forall tag body, blen (wrap tag body) = 8 + blen body.
+Proof. exact wrap_blen. Qed.
+Print Assumptions C06_message_length.
+
+(* the schema of the current tree satisfies the hypothesis *)
+Theorem C06_instance : env_ok inst_T.
+Proof. exact inst_codec_env_ok. Qed.
+Print Assumptions C06_instance.
+
+(* a decoded item always moves the stream forward *)
 Theorem C06_forward_progress : forall s a st cur v nn st',
   dec_value s a st cur = Ok (v, nn, st') -> (length (rest st') + 5 <= length (rest st))%nat.
 Proof. exact (proj1 dec_value_progress). Qed.
 Print Assumptions C06_forward_progress.
-
-(* items are consumed exactly: what follows a primitive item is untouched and no look-ahead is left *)
-Theorem C06_item_exact_consumption : forall k tag v b tl st,
-  tag <> 0 -> tag < 2 ^ 24 -> wf_prim k v -> enc_prim tag k v = Some b -> at_item tag b tl st ->
-  dec_prim k tag st = Ok (v, blen b, {| rest := tl; last := 0 |}).
-Proof. exact dec_prim_enc. Qed.
-Print Assumptions C06_item_exact_consumption.
